@@ -19,12 +19,19 @@ import (
 // (b) metamorphic: Match(Normalize(in)) == Match(in) on licenses, confidences,
 //     token spans and line numbers (Copyright entries excluded).
 
-func vMatchWord(w string) string {
-	w = strings.ToLower(w)
-	if iw, ok := interchangeableWords[w]; ok {
-		return iw
+// vSameWord: does the word w of the Normalize output stand for the Match token
+// tok? Match lower-cases, rewrites https -> http and applies the interchangeable
+// spellings; Normalize keeps the case of a word's first rune, so "HTTPS://x"
+// stays "Httpsx" in its output (the https rewrite is case-sensitive).
+func vSameWord(w, tok string) bool {
+	norm := func(x string) string {
+		if iw, ok := interchangeableWords[x]; ok {
+			return iw
+		}
+		return x
 	}
-	return w
+	l := strings.ToLower(w)
+	return norm(l) == tok || norm(strings.ReplaceAll(l, "https", "http")) == tok
 }
 
 // vStructural checks (a). Returns "" if the invariant holds.
@@ -42,12 +49,14 @@ func vStructural(in, norm []byte) string {
 	for k := 1; k <= len(out) || k <= maxLine; k++ {
 		var got []string
 		if k <= len(out) {
-			for _, w := range strings.Fields(out[k-1]) {
-				got = append(got, vMatchWord(w))
-			}
+			got = strings.Fields(out[k-1])
 		}
 		want := byLine[k]
-		if strings.Join(got, " ") != strings.Join(want, " ") {
+		same := len(got) == len(want)
+		for i := 0; same && i < len(got); i++ {
+			same = vSameWord(got[i], want[i])
+		}
+		if !same {
 			g, w := strings.Join(got, " "), strings.Join(want, " ")
 			if len(g) > 160 {
 				g = g[:160] + "..."
@@ -286,6 +295,20 @@ func TestVerifC11(t *testing.T) {
 					}
 				}
 				lead := []string{"\n", "\n\n", "  \n", "// \n", " * \n", "Copyright 2020 Example Corp\n", "// Copyright (c) 2019 J. Random Hacker\n", "2020-01-02\n", "A. Definitions\n", "IV. Terms\n", "1. \n"}[r.Intn(11)]
+				if r.Intn(3) == 0 {
+					// HTML entities in either case, glued to words (escaped, possibly all-caps text)
+					rep := func(old string, news []string) {
+						for strings.Contains(raw, old) && r.Intn(4) != 0 {
+							raw = strings.Replace(raw, old, news[r.Intn(len(news))], 1)
+						}
+					}
+					rep("'", []string{"&apos;", "&APOS;", "&#39;", "&#x27;", "&rsquo;", "&RSQUO;"})
+					rep("\"", []string{"&quot;", "&QUOT;", "&ldquo;", "&LDQUO;", "&#34;"})
+					rep(" and ", []string{" &amp; ", " &AMP; ", "&nbsp;and&NBSP;"})
+					if r.Intn(2) == 0 {
+						raw = strings.ToUpper(raw)
+					}
+				}
 				lines := strings.Split(raw, "\n")
 				switch r.Intn(4) {
 				case 0:
